@@ -649,7 +649,8 @@ Proofs/ParserDoc4.lean instantiates `DefLemmas` from the per-production theorems
                   shorthand form `{ … }` when it applies) — the shorthand query is accepted at ANY position;
   * `loose l`     a type-system definition or extension, tokens `LooseDef.toks l` = the printer's tokens up to a leading
                   `&` / `|` and — KNOWN FINDING accepts-root-operation-without-type — a root operation type without name;
-  * `descFragment` — KNOWN FINDING accepts-description-before-fragment — `"d" fragment on T Directives? SelectionSet`.
+`fragment_definition` entered on a description (`"d" fragment on T { a }`, formerly accepted) reports an error since the
+repair of accepts-description-before-fragment: `Parse.acc_fragmentDefinition_desc`, `description_before_fragment_rejected`.
 -/
 section Document
 
@@ -680,7 +681,7 @@ theorem document_dispatch_accept_sound (n : Nat) (s s' : PState) (t : Parse.Tok)
 /-- **document_accepted_is_in_grammar.**  If `Parser::parse` (model; no token limit, any recursion limit) reports no
     error, then the source lexes without error and its significant tokens are `docToks its ++ [EOF]` for a NON-EMPTY
     list `its` of accepted definitions: a Document of the grammar — `Definition+`, the shorthand query at any
-    position — up to the three documented liberties.  (`parse` always returns a tree: C01 `parse_terminates`,
+    position — up to the two documented liberties.  (`parse` always returns a tree: C01 `parse_terminates`,
     `parse_no_panic`.) -/
 theorem document_accepted_is_in_grammar (rl : Nat) (src : Parse.Str) (herr : (parse .document none rl src).errors = []) :
     Parse.LexClean src ∧ ∃ (ts : List Parse.Tok) (e : Parse.Tok) (its : List Parse.DocItem),
@@ -694,7 +695,7 @@ theorem document_accepted_is_in_grammar (rl : Nat) (src : Parse.Str) (herr : (pa
     exact ⟨hl, ts, e, its, h1, h2, h3, h4, h5⟩
 
 /-- **The strict corollary and the link to C08's reference parser.**  For the list `its` of the previous theorem: if no
-    definition uses one of the three liberties (`strictItems its = some items`: no leading separator, every root
+    definition uses one of the two liberties (`strictItems its = some items`: no leading separator, every root
     operation type named, no description in front of `fragment on`), the significant tokens are
     `itemsToks items` — every definition printed by C08's `tDefinition`, long or shorthand form, `items ≠ []` — and
     C08's reference parser `pDocument` accepts that same token list and returns exactly the definitions of `items`,
@@ -733,13 +734,34 @@ theorem followOk_tDocument (oe : Bool) (d : Ast.Definition) (r : List Ast.Defini
       Ast.FollowOk ((oe, d) :: r.map (fun d => (false, d))) :=
   ⟨Ast.tDocument_items oe d r, Ast.followOk_tDocument oe d r⟩
 
-/-- KNOWN FINDING accepts-description-before-fragment (kernel-evaluated on the model; reproduced on the implementation
-    by stream P, harness/src/p05.rs): a description in front of `fragment on T { a }` parses without error, while the
-    same with a fragment name, and a description in front of an operation or an extension, are rejected. -/
-theorem description_before_fragment_accepted :
-    errorFree "\"d\" fragment on T { a }".toList = true ∧ errorFree "\"d\" fragment F on T { a }".toList = false ∧
+/-- number of errors, and whether the tree's text is the whole input -/
+def errorCount (src : Parse.Str) : Nat := (parse .document none 500 src).errors.length
+def treeIsLossless (src : Parse.Str) : Bool :=
+  match (parse .document none 500 src).outcome with
+  | .tree root => root.text == src
+  | _ => false
+
+/-- REPAIRED defect accepts-description-before-fragment (kernel-evaluated on the model; stream P runs the same inputs
+    on the implementation, harness/src/p05.rs): a description in front of `fragment on T { a }` — formerly parsed
+    without error, the string bumped as the `fragment` keyword — now gives two errors (the description, and then
+    "Fragment Name cannot be 'on'"), a description in front of a complete fragment definition exactly one; the
+    tree is still lossless.  A description in front of an
+    operation or an extension was and is rejected. -/
+theorem description_before_fragment_rejected :
+    errorCount "\"d\" fragment on T { a }".toList = 2 ∧ treeIsLossless "\"d\" fragment on T { a }".toList = true ∧
+    errorCount "\"d\" fragment F on T { a }".toList = 1 ∧ treeIsLossless "\"d\" fragment F on T { a }".toList = true ∧
+    errorFree "fragment F on T { a }".toList = true ∧
     errorFree "\"d\" query { a }".toList = false ∧ errorFree "\"d\" { a }".toList = false ∧
     errorFree "\"d\" extend type A @d".toList = false := by decide +kernel
+
+/-- `fragment_definition` entered on a description (a String token) is never error-free, whatever follows -/
+theorem fragment_definition_rejects_description (n : Nat) (s s' : PState) (t : Parse.Tok) (w : Parse.TW s) (he : Parse.EofEnd s)
+    (hh : (Parse.Toks s).head? = some t) (hk : t.kind = .stringValue)
+    (h : (fragmentDefinition n).run s = .ok () s') : Parse.Doomed s' := by
+  apply Classical.byContradiction
+  intro hnd
+  obtain ⟨cs, _, _, _, hx⟩ := (Parse.acc_fragmentDefinition_desc n (R := fun _ _ => False)).2 s () s' w he ⟨t, hh, hk⟩ h hnd
+  rcases hx with ⟨_, _, hf⟩ | hf <;> exact hf
 
 /-- the shorthand query is accepted at any position, also after a type-system definition -/
 theorem shorthand_query_anywhere_accepted :
